@@ -120,7 +120,20 @@ impl AsyncDB for ExternalDriver {
 
     async fn shutdown(&mut self) {
         drop(self.stdin.take());
-        self.child.wait().await.ok();
+        // Keep reading (and discarding) what the subprocess still writes while waiting for it to
+        // exit. Otherwise a subprocess that is in the middle of a reply larger than the pipe buffer
+        // (e.g. the caller was cancelled before it read the reply) blocks in its `write`, never gets
+        // to see that its stdin was closed, and `wait` never returns.
+        let mut sink = tokio::io::sink();
+        let drain = tokio::io::copy(self.stdout.get_mut(), &mut sink);
+        tokio::pin!(drain);
+        let mut drained = false;
+        loop {
+            tokio::select! {
+                _ = self.child.wait() => break,
+                _ = &mut drain, if !drained => drained = true,
+            }
+        }
     }
 
     fn engine_name(&self) -> &str {
